@@ -108,6 +108,26 @@ CHECKS = {
         "Effect of batch_size / learn_step is read as the agent attribute (what the loops use).",
         "DESIGN.md#c06",
     ),
+    "C02": (
+        True,
+        "exploration",
+        "postcondition monitor around Mutations.mutation with class-level recording wrappers on the five mutation methods: parameter-identity check of every optimizer, lr check, shared/target network comparison, architecture-delta comparison, act and learn probes",
+        "Populations of all 11 algorithms go through generations of (learn, select, mutate) with one-hot / uniform / random "
+        "mutation probabilities; after every mutation each agent's optimizers, learning rates, target/shared networks, "
+        "sibling eval networks, ability to act, effect of a learn step, population order and reported label are checked.",
+        "Kind actually applied is read from recording wrappers; architecture_sync only where components were equal before.",
+        "DESIGN.md#c02",
+    ),
+    "C08": (
+        True,
+        "exploration",
+        "differential monitor around learn(): reference Bellman loss on a deep copy of the pre-step agent, leaf-wise soft-update relation via the module leaf walker, metamorphic twin with scrambled next observations of done transitions",
+        "DQN/CQN (plain, double), Rainbow (1-step, n-step, PER, combined), DDPG, TD3, MADDPG, MATD3 over gamma, tau, policy "
+        "delay, done patterns and consecutive steps, also directly after clone / each mutation kind / checkpoint load; "
+        "returned loss, every target parameter and the masking of terminal transitions are checked at every learn step.",
+        "Rainbow's loss form is delegated to C18; masking twin only on networks without batch norm; float tolerance 1e-4.",
+        "DESIGN.md#c08",
+    ),
 }
 
 NOT_YET = "check not built yet in this round (framework under construction); see DESIGN.md section for the plan"
